@@ -99,7 +99,13 @@ func (q *Querier) openLog(ctx context.Context, ctr container, start, end otelsto
 		since = strconv.FormatInt(t.Unix(), 10)
 	}
 	if t := end.AsTime(); !t.IsZero() {
-		until = strconv.FormatInt(t.Unix(), 10)
+		sec := t.Unix()
+		if t.Nanosecond() != 0 {
+			// The daemon is asked in whole seconds: round the end up,
+			// so that the last partial second of the window is not cut off.
+			sec++
+		}
+		until = strconv.FormatInt(sec, 10)
 	}
 
 	rc, err := q.client.ContainerLogs(ctx, ctr.ID, apicontainer.LogsOptions{
